@@ -1,12 +1,19 @@
-"""Wall-clock watchdog for calls into the implementation (C03: totality must be REPORTED, never waited for).
+"""Watchdog for calls into the implementation (C03: totality must be REPORTED, never waited for).
 
 `with limit(seconds): ...` raises Watchdog (a BaseException, so that `except Exception` in the code under test does not
-swallow it) in the main thread of the current process when the block runs longer. One SIGALRM handler per process."""
+swallow it) in the main thread of the current process when the block burns more than `seconds` of PROCESS CPU TIME
+(ITIMER_PROF — a loop that does not end burns CPU; a process that is merely descheduled on a loaded machine does not),
+or takes more than WALL_FACTOR x seconds of wall clock (ITIMER_REAL, backstop). The cyclic garbage collector is switched
+off inside the window (a full collection of the harness's own heap can take seconds and is not the callee's fault).
+`retrying(fn, seconds)` runs fn() under the limit and, when the watchdog fires, once more under a larger limit: only a
+second hit counts as non-termination. One handler installation per process."""
 import contextlib
+import gc
 import os
 import signal
 import threading
 
+WALL_FACTOR = 15
 _installed = {}
 
 
@@ -22,8 +29,25 @@ def _install():
     pid = os.getpid()
     if _installed.get('pid') != pid:
         signal.signal(signal.SIGALRM, _handler)
+        signal.signal(signal.SIGPROF, _handler)
         _installed.clear()
         _installed['pid'] = pid
+
+
+def arm(seconds):
+    """Cheap form for hot loops (main thread only): arm(...) … disarm() in a finally."""
+    _install()
+    _installed['gc'] = gc.isenabled()
+    gc.disable()
+    signal.setitimer(signal.ITIMER_PROF, seconds)
+    signal.setitimer(signal.ITIMER_REAL, seconds * WALL_FACTOR)
+
+
+def disarm():
+    signal.setitimer(signal.ITIMER_PROF, 0)
+    signal.setitimer(signal.ITIMER_REAL, 0)
+    if _installed.get('gc'):
+        gc.enable()
 
 
 @contextlib.contextmanager
@@ -31,19 +55,19 @@ def limit(seconds):
     if threading.current_thread() is not threading.main_thread():
         yield                      # signals only reach the main thread: no guard possible here
         return
-    _install()
-    signal.setitimer(signal.ITIMER_REAL, seconds)
+    arm(seconds)
     try:
         yield
     finally:
-        signal.setitimer(signal.ITIMER_REAL, 0)
+        disarm()
 
 
-def arm(seconds):
-    """Cheap form for hot loops (main thread only): arm(...) … disarm()."""
-    _install()
-    signal.setitimer(signal.ITIMER_REAL, seconds)
-
-
-def disarm():
-    signal.setitimer(signal.ITIMER_REAL, 0)
+def retrying(fn, seconds, retry_factor=3):
+    """(True, fn()) or (False, None) when fn() exceeded the limit and then also retry_factor x the limit."""
+    for lim in (seconds, seconds * retry_factor):
+        try:
+            with limit(lim):
+                return True, fn()
+        except Watchdog:
+            continue
+    return False, None
